@@ -161,6 +161,25 @@ def run(ctx):
             for s in range(len(members) + 1):
                 ms = 1700000000000 // (iv * 1000) * (iv * 1000) + s * iv * 1000 + 1
                 dc.append({"iv": iv, "members": members, "signer": signer, "ts": ms * 1000000, "rel": False, "mutate": ""})
+    # elections: the same cluster object is updated through a history of producer sets;
+    # validity must depend on the current set only (retired producers are non-members)
+    for _ in range(30 if ctx.tier == "quick" else 400):
+        k = rng.randrange(1, 7)
+        hist = []
+        for _h in range(rng.randrange(1, 4)):
+            kk = k if rng.random() < 0.7 else rng.randrange(1, 7)
+            hist.append(rng.sample(range(0, 12), kk))
+        members = rng.sample(range(0, 12), k)
+        retired = [m for h in hist for m in h if m not in members]
+        signer = rng.choice(retired) if (retired and rng.random() < 0.6) else rng.choice(members)
+        iv = rng.choice([1, 2])
+        pool = members if signer in members else [h for h in hist if signer in h][-1]
+        pos = pool.index(signer)
+        # a timestamp in the slot the signer's (former) index owns
+        n = len(members)
+        kslot = (1700000000000 // (iv * 1000) // n) * n + n + pos
+        ms = (kslot - 1) * iv * 1000 + 1 + rng.randrange(0, iv * 1000)
+        dc.append({"iv": iv, "history": hist, "members": members, "signer": signer, "ts": ms * 1000000, "rel": False, "mutate": ""})
     for mfield in FIELDS:
         dc.append({"iv": 1, "members": [0, 1, 2], "signer": 1, "ts": 1700000000001 * 1000000, "rel": False, "mutate": mfield})
     for q in range(-8, 14):
